@@ -84,7 +84,7 @@ def trees(maxN, out=True):
     return res
 
 
-OPT_DEFAULT = {"P1": 0, "P2": 0, "P3": 1, "P4": 4, "P5": 2, "BK": -1, "SZ": 2, "VIRT": 0, "INTSZ": 0, "NSFIX": -1, "LSFIX": -1, "MINNS": 0, "MAXSZ": 64}
+OPT_DEFAULT = {"REN": 0, "P1": 0, "P2": 0, "P3": 1, "P4": 4, "P5": 2, "BK": -1, "SZ": 2, "VIRT": 0, "INTSZ": 0, "NSFIX": -1, "LSFIX": -1, "MINNS": 0, "MAXSZ": 64}
 SYMB = "symbolic (solver): per-node W,H in [0,64], NodeSpacing, LayerSpacing in [0,64]"
 
 
@@ -335,6 +335,13 @@ def C08(tier):
                      enctimeout=240, qtimeout=120),
            layout_ob("layout-rename-nspos", "Harness_E_C08", small, {"P4": [3]}, consts={"P1": 0, "P2": 0, "P5": 2, "SZ": 5, "INTSZ": 1, "NSFIX": 10, "LSFIX": 20},
                      bounds="%s x NetworkSimplex positioner; %s" % (nm(q, "4 shapes with <= 2 edges", "all canonical edge lists N<=3 M<=2"), A), enctimeout=240, qtimeout=120, loop=192)]
+    cyc = shapes(4, 4, selfloops=False, connected=True, acyclic=False)
+    fixed = shapes(3, 3) + (cyc[::4] if q else cyc)
+    obs.append(layout_ob("layout-rename-fixed", "Harness_E_C08", fixed, {"REN": [1, 2] if q else [1, 2, 3], "P1": [0] if q else [0, 1], "P4": [4] if q else [4, 1]},
+                         consts={"P2": 0, "P5": 2, "SZ": 2},
+                         bounds="%s x three FIXED renamings (reverse order of the same names, helper-node names V3,V2,V1,NE3.. in descending order, rotation) - enumerated, not "
+                                "solver-chosen: concrete names keep name comparisons concrete on shapes where a symbolic name exhausts the encoding budget; %s"
+                                % (nm(q, "all canonical edge lists N<=3 M<=3 + every 4th cyclic connected list N<=4 M<=4", "all canonical edge lists N<=3 M<=3 + all cyclic connected lists N<=4 M<=4 x {greedy,dfs} x {SinkColoring,VAlign}"), SYMB)))
     return dict(obligations=obs)
 
 
